@@ -6,7 +6,7 @@ import impl, gen
 from common import frac, float_is_quotient, close, score_matches
 from impl import Metric, quiet
 
-RULE = ("object-based 1-3-D label maps x dtypes {bool,uint8..64,int32,int64} x reference label (present/absent) x "
+RULE = ("fragmented predictions with 8-60 sparse/dense instance ids and label lists of up to 80 entries; the same array objects scored repeatedly with in-place edits in between; object-based 1-3-D label maps x dtypes {bool,uint8..64,int32,int64} x reference label (present/absent) x "
         "prediction label or list of 1-4 labels (present/absent, non-consecutive) x with/without selection; "
         "exhaustive {0,1,2}-arrays of 4 cells x all (r, ps); non-trivial = both selected masks non-empty and different; "
         "distinct = hash of (arrays, selection, metric)")
@@ -146,6 +146,50 @@ def random_cases(ctx, n):
                 one_case(ctx, b_r, b_p, None, None, metric, f"rand{i}.bin")
 
 
+def sparse_list_cases(ctx, n):
+    """heavily fragmented prediction with many (sparse or dense) instance ids, long label lists"""
+    rng = ctx.rng
+    for i in range(n):
+        side = rng.choice([12, 16, 20])
+        shape = (side, side) if rng.random() < 0.7 else (6, 6, rng.randint(4, 8))
+        dtype = rng.choice([np.uint16, np.uint32, np.int64])
+        k = rng.randint(8, 60)
+        ids = rng.sample(range(1, 60000 if rng.random() < 0.6 else k + 5), k)
+        pred = np.zeros(shape, dtype)
+        flat = pred.reshape(-1)
+        pos = rng.sample(range(flat.size), min(flat.size, rng.randint(k, 3 * k)))
+        for j, q in enumerate(pos):
+            flat[q] = ids[j % k]
+        ref = np.zeros(shape, dtype)
+        rflat = ref.reshape(-1)
+        for q in rng.sample(range(flat.size), rng.randint(1, flat.size // 2)):
+            rflat[q] = 1
+        ps = rng.sample(ids, rng.randint(max(1, k // 2), k))
+        if rng.random() < 0.3:
+            ps = ps + [rng.randint(1, 70000) for _ in range(rng.randint(1, 20))]
+        for metric in ("IOU", "DSC", "RVD"):
+            one_case(ctx, ref, pred, 1, ps, metric, f"sparse{i}")
+        ctx.count("long_label_list")
+
+
+def history_cases(ctx, n):
+    """the same array objects scored repeatedly with in-place edits in between (no hidden state allowed)"""
+    rng = ctx.rng
+    for i in range(n):
+        shape = gen.rand_shape(rng, hi=7)
+        ref = gen.instance_map(rng, shape, rng.randint(1, 3), dtype=np.uint8)
+        pred = gen.instance_map(rng, shape, rng.randint(1, 3), dtype=np.uint8)
+        for step in range(rng.randint(2, 5)):
+            r = rng.randint(1, 3)
+            ps = [rng.randint(1, 3) for _ in range(rng.randint(1, 2))]
+            for metric in ("IOU", "DSC", "RVD"):
+                one_case(ctx, ref, pred, r, ps, metric, f"hist{i}.{step}")
+            # edit in place
+            tgt = ref if rng.random() < 0.5 else pred
+            gen.put_object(rng, tgt, rng.randint(0, 3), kind=rng.choice(["box", "voxel", "line"]))
+        ctx.count("in_place_edit_histories")
+
+
 def exhaustive_cases(ctx, shape):
     arrs = list(gen.all_small_arrays(shape))
     sels = [(1, 1), (1, [1, 2]), (2, [1]), (1, 2), (2, [2, 1]), (3, [3])]
@@ -180,6 +224,8 @@ def run(ctx):
     corpus(ctx)
     exhaustive_cases(ctx, (1, 3) if ctx.quick else (2, 2))
     random_cases(ctx, ctx.scale(400, 4000))
+    sparse_list_cases(ctx, ctx.scale(40, 400))
+    history_cases(ctx, ctx.scale(60, 600))
     rng = ctx.rng
     for i in range(ctx.scale(25, 250)):
         shape = gen.rand_shape(rng, ndim=rng.choice([2, 3]), lo=3, hi=8)
@@ -191,6 +237,8 @@ def run(ctx):
 
 def search(ctx):
     random_cases(ctx, ctx.scale(600, 3000))
+    sparse_list_cases(ctx, ctx.scale(100, 500))
+    history_cases(ctx, ctx.scale(150, 600))
 
 
 def replay(ctx, rec):
